@@ -669,6 +669,19 @@ Qed.
 Lemma filter_ext_eq : forall A (f g : A -> bool) l, (forall x, f x = g x) -> filter f l = filter g l.
 Proof. intros A f g l H. induction l as [|x xs IH]; [reflexivity|]. cbn. rewrite H, IH. reflexivity. Qed.
 
+(* prepare_output_directory with its refusal test (_refusal_reason) written out *)
+Lemma prepare_unfold : forall v kind reuse dmeta entries,
+  prepare_output_directory v kind reuse dmeta entries =
+  if kind =? 0 then (Ok tt, 1, [])
+  else if negb (kind =? 1) then (Err E_Input, kind, entries)
+  else if negb reuse && negb (match filter (ignore_patterns v) (list_dir dmeta entries) with [] => true | _ => false end)
+  then (Err E_Input, kind, entries)
+  else let '(r, es) := remove_all (glob_region dmeta entries) entries in (r, kind, es).
+Proof.
+  intros. unfold prepare_output_directory, refusal_reason.
+  destruct (kind =? 0); [reflexivity|]. destruct (negb (kind =? 1)); reflexivity.
+Qed.
+
 (* refusal: fresh input, existing directory with a foreign entry - hidden or not, whatever the directory is
    called, whatever the current directory is *)
 Lemma refuse_fresh : forall v dmeta entries,
@@ -676,7 +689,7 @@ Lemma refuse_fresh : forall v dmeta entries,
   prepare_output_directory v 1 false dmeta entries = (Err E_Input, 1, entries).
 Proof.
   intros v dmeta entries F.
-  unfold prepare_output_directory, list_dir. cbn [Z.eqb negb andb].
+  rewrite prepare_unfold. unfold list_dir. cbn [Z.eqb negb andb].
   rewrite (filter_ext_eq _ _ (foreign v) entries (ignore_is_foreign v)).
   pose proof (existsb_filter_nonempty _ _ _ F) as NE.
   destruct (filter (foreign v) entries); [contradiction|]. reflexivity.
@@ -801,7 +814,7 @@ Lemma prepare_only_removes_region : forall v reuse dmeta entries r k' es,
   k' = 1 /\ (forall e, In e es -> In e entries) /\
   (forall e, In e entries -> (en_visible e && en_region e) = false -> In e es).
 Proof.
-  intros v reuse dmeta entries r k' es N H. unfold prepare_output_directory in H.
+  intros v reuse dmeta entries r k' es N H. rewrite prepare_unfold in H.
   change (1 =? 0) with false in H. change (1 =? 1) with true in H. cbn [negb] in H. cbv iota in H.
   destruct (remove_all (glob_region dmeta entries) entries) as [r0 es0] eqn:R.
   revert H. match goal with |- (if ?c then _ else _) = _ -> _ => destruct c end; intros H.
@@ -825,7 +838,7 @@ Lemma prepare_accept : forall v reuse dmeta entries,
   prepare_output_directory v 1 reuse dmeta entries =
   (Ok tt, 1, filter (fun e => negb (en_region e)) entries).
 Proof.
-  intros v reuse dmeta entries N V A D. unfold prepare_output_directory, list_dir, glob_region.
+  intros v reuse dmeta entries N V A D. rewrite prepare_unfold. unfold list_dir, glob_region.
   change (1 =? 0) with false. change (1 =? 1) with true. cbn [negb]. cbv iota.
   assert (C : negb reuse && negb (match filter (ignore_patterns v) entries with [] => true | _ => false end) = false).
   { destruct A as [A|A]; [subst reuse; reflexivity|].
@@ -861,7 +874,7 @@ Definition env_nolog : env := mkEnv false (mkP 9 0) (mkP 9 99).
 Lemma prepare_not_directory : forall v kind reuse dmeta entries,
   (kind = 0 -> prepare_output_directory v kind reuse dmeta entries = (Ok tt, 1, [])) /\ (kind <> 0 -> kind <> 1 -> prepare_output_directory v kind reuse dmeta entries = (Err E_Input, kind, entries)).
 Proof.
-  intros v kind reuse dmeta entries. unfold prepare_output_directory. split.
+  intros v kind reuse dmeta entries. rewrite !prepare_unfold. split.
   - intros K. subst kind. reflexivity.
   - intros K0 K1. assert (E0 : kind =? 0 = false) by lia. assert (E1 : kind =? 1 = false) by lia.
     rewrite E0, E1. reflexivity.
@@ -1405,4 +1418,165 @@ Proof.
   split; [reflexivity|]. split; [reflexivity|]. split; [reflexivity|].
   exists (mkE 1 1 true false false true). split; [right; left; reflexivity|]. split; [reflexivity|].
   intros [H|[]]. discriminate.
+Qed.
+
+(* ====================================================================== the wrapper (run_antismash) *)
+
+Lemma refusal_reason_foreign : forall v dmeta entries,
+  existsb (foreign v) entries = true -> refusal_reason v 1 false dmeta entries = true.
+Proof.
+  intros v dmeta entries F. unfold refusal_reason, list_dir. cbn [Z.eqb negb andb].
+  rewrite (filter_ext_eq _ _ (foreign v) entries (ignore_is_foreign v)).
+  pose proof (existsb_filter_nonempty _ _ _ F) as NE.
+  destruct (filter (foreign v) entries); [contradiction|]. reflexivity.
+Qed.
+
+Lemma prepare_refusal : forall v kind reuse dmeta entries,
+  kind <> 0 -> refusal_reason v kind reuse dmeta entries = true ->
+  prepare_output_directory v kind reuse dmeta entries = (Err E_Input, kind, entries).
+Proof.
+  intros v kind reuse dmeta entries K R. unfold prepare_output_directory.
+  assert (E0 : kind =? 0 = false) by lia. rewrite E0, R. reflexivity.
+Qed.
+
+Lemma remove_all_error : forall targets entries k es, remove_all targets entries = (Err k, es) -> k = E_Other.
+Proof.
+  induction targets as [|t rest IH]; intros entries k es H.
+  - cbn in H. discriminate.
+  - cbn [remove_all] in H. destruct (en_isdir t).
+    + inversion H. reflexivity.
+    + exact (IH _ _ _ H).
+Qed.
+
+(* AntismashInputError comes out of prepare_output_directory only through the refusal test *)
+Lemma prepare_input_error_is_refusal : forall v kind reuse dmeta entries kp esp,
+  prepare_output_directory v kind reuse dmeta entries = (Err E_Input, kp, esp) ->
+  kind <> 0 /\ refusal_reason v kind reuse dmeta entries = true /\ kp = kind /\ esp = entries.
+Proof.
+  intros v kind reuse dmeta entries kp esp H. unfold prepare_output_directory in H.
+  destruct (kind =? 0) eqn:E0; [discriminate|]. split; [lia|].
+  destruct (refusal_reason v kind reuse dmeta entries).
+  - inversion H. repeat split; reflexivity.
+  - destruct (remove_all (glob_region dmeta entries) entries) as [r0 es0] eqn:R.
+    inversion H; subst. apply remove_all_error in R. discriminate.
+Qed.
+
+(* the refusal test comes before any write: with a log file, a path that exists and that the refusal test
+   turns down ends the run at once - an AntismashInputError, logged once, no stage of the run has happened,
+   the directory is as it was and the logging set-up (whatever it would have done) has not taken place *)
+Lemma outer_refused_before_any_write : forall setup pl v kind reuse dmeta entries records results hk w,
+  lg_given v = true -> kind <> 0 -> refusal_reason v kind reuse dmeta entries = true ->
+  outer_run_antismash setup pl v kind reuse dmeta entries records results hk w =
+  (log_error w, Err E_Input, kind, entries).
+Proof.
+  intros setup pl v kind reuse dmeta entries records results hk w G K R.
+  unfold outer_run_antismash, early_refusal. assert (E0 : kind =? 0 = false) by lia.
+  rewrite G, E0, R. reflexivity.
+Qed.
+
+(* the same from the side of prepare_output_directory: whenever it would raise AntismashInputError on the
+   directory as it is, the wrapper of a run with a log file ends before the set-up *)
+Lemma outer_refuses_what_prepare_refuses : forall setup pl v kind reuse dmeta entries records results hk w kp esp,
+  lg_given v = true ->
+  prepare_output_directory v kind reuse dmeta entries = (Err E_Input, kp, esp) ->
+  outer_run_antismash setup pl v kind reuse dmeta entries records results hk w =
+  (log_error w, Err E_Input, kind, entries).
+Proof.
+  intros setup pl v kind reuse dmeta entries records results hk w kp esp G EP.
+  destruct (prepare_input_error_is_refusal _ _ _ _ _ _ _ EP) as [K [R _]].
+  apply outer_refused_before_any_write; assumption.
+Qed.
+
+(* the early test refuses nothing that could have succeeded: prepare_output_directory refuses the same
+   directory, and _run_antismash on it never returns 0 and leaves it as it was *)
+Lemma early_refusal_sound : forall v kind reuse dmeta entries,
+  early_refusal v kind reuse dmeta entries = true ->
+  prepare_output_directory v kind reuse dmeta entries = (Err E_Input, kind, entries) /\
+  forall pl records results hk w w' r kd es,
+    run_antismash pl v kind reuse dmeta entries records results hk w = (w', r, kd, es) ->
+    r <> Ok 0 /\ kd = kind /\ es = entries /\ w_file w' = w_file w.
+Proof.
+  intros v kind reuse dmeta entries H. unfold early_refusal in H.
+  apply andb_true_iff in H. destruct H as [H R]. apply andb_true_iff in H. destruct H as [_ K].
+  assert (K' : kind <> 0) by (apply negb_true_iff in K; lia).
+  pose proof (prepare_refusal v kind reuse dmeta entries K' R) as EP. split; [exact EP|].
+  intros pl records results hk w w' r kd es H.
+  destruct (run_antismash_refused _ _ _ _ _ _ _ _ _ _ _ _ _ _ _ _ _ EP H) as [A [_ [C [D _]]]].
+  split; [exact C|]. split; [destruct D as [[D _]|[D _]]; exact D|].
+  split; [destruct D as [[_ D]|[_ D]]; exact D | exact A].
+Qed.
+
+(* without a log file the wrapper is _run_antismash plus the logging of an AntismashInputError; the set-up
+   writes nothing and is not consulted *)
+Lemma outer_without_logfile : forall setup pl v kind reuse dmeta entries records results hk w,
+  lg_given v = false ->
+  outer_run_antismash setup pl v kind reuse dmeta entries records results hk w =
+  log_input_error (run_antismash pl v kind reuse dmeta entries records results hk w).
+Proof.
+  intros setup pl v kind reuse dmeta entries records results hk w G.
+  unfold outer_run_antismash, early_refusal. rewrite G. reflexivity.
+Qed.
+
+(* the second clause of the property for the complete run_antismash: fresh input, existing directory with
+   foreign content, ANY plan, ANY effect of the logging set-up: the run does not succeed; listing and JSON target
+   are untouched; at most the one error is logged; nothing after prepare_output_directory happens - with a log
+   file nothing happens at all; and the outcome does not depend on the set-up (it never runs or writes nothing) *)
+Lemma outer_foreign_untouched : forall setup pl v dmeta entries records results hk w w' r kd es,
+  existsb (foreign v) entries = true ->
+  outer_run_antismash setup pl v 1 false dmeta entries records results hk w = (w', r, kd, es) ->
+  r <> Ok 0 /\ kd = 1 /\ es = entries /\ w_file w' = w_file w /\ w_log w <= w_log w' <= w_log w + 1 /\
+  (exists pre, w_trace w' = w_trace w ++ pre /\ Forall (stage_ev 20 23 (cstate (w_file w))) pre) /\
+  (lg_given v = true -> w_trace w' = w_trace w /\ r = Err E_Input) /\
+  (forall setup', outer_run_antismash setup' pl v 1 false dmeta entries records results hk w = (w', r, kd, es)).
+Proof.
+  intros setup pl v dmeta entries records results hk w w' r kd es F H.
+  destruct (lg_given v) eqn:G.
+  - pose proof (refusal_reason_foreign v dmeta entries F) as R.
+    rewrite (outer_refused_before_any_write setup pl v 1 false dmeta entries records results hk w G) in H;
+      [|discriminate|exact R].
+    inversion H; subst w' r kd es. cbn [log_error w_file w_log w_trace].
+    split; [discriminate|]. split; [reflexivity|]. split; [reflexivity|]. split; [reflexivity|].
+    split; [lia|]. split; [exists []; rewrite app_nil_r; split; [reflexivity|constructor]|].
+    split; [intros _; split; reflexivity|].
+    intros setup'. apply outer_refused_before_any_write; [exact G|discriminate|exact R].
+  - rewrite (outer_without_logfile setup _ _ _ _ _ _ _ _ _ _ G) in H.
+    assert (I : forall setup', outer_run_antismash setup' pl v 1 false dmeta entries records results hk w
+                               = (w', r, kd, es))
+      by (intros setup'; rewrite (outer_without_logfile setup' _ _ _ _ _ _ _ _ _ _ G); exact H).
+    destruct (run_antismash pl v 1 false dmeta entries records results hk w) as [[[w0 r0] kd0] es0] eqn:R.
+    destruct (run_antismash_foreign _ _ _ _ _ _ _ _ _ _ _ _ F R) as [A [B [C [D [E T]]]]].
+    unfold log_input_error in H.
+    assert (X : r = r0 /\ kd = kd0 /\ es = es0 /\ w_file w' = w_file w0 /\ w_trace w' = w_trace w0 /\
+                w_log w0 <= w_log w' <= w_log w0 + 1).
+    { destruct r0 as [c|k]; [inversion H; subst; repeat split; lia|].
+      destruct (k =? E_Input); inversion H; subst; cbn [log_error w_file w_log w_trace]; repeat split; lia. }
+    destruct X as [X1 [X2 [X3 [X4 [X5 X6]]]]]. subst r kd es.
+    split; [exact A|]. split; [exact B|]. split; [exact C|]. split; [rewrite X4; exact D|].
+    split; [lia|]. split; [rewrite X5; exact T|]. split; [discriminate | exact I].
+Qed.
+
+(* the order the code had before the repair of FC20d (logging set up first, no early test), kept to show what
+   the early test is for: with the real set-up a refused directory gains the new log file *)
+Definition outer_logging_first (setup : log_effect) (pl : pplan) (v : env) (kind : Z) (reuse dmeta : bool)
+  (entries : list entry) (records : list rspec) (results : list (list mspec)) (hk : Z) (w : world)
+  : world * res Z * Z * list entry :=
+  match (if lg_given v then setup kind entries else (Ok tt, kind, entries)) with
+  | (Err k, kind1, entries1) => (w, Err k, kind1, entries1)
+  | (Ok _, kind1, entries1) =>
+    log_input_error (run_antismash pl v kind1 reuse dmeta entries1 records results hk w)
+  end.
+
+Lemma logging_first_writes_into_refused_directory :
+  exists pl v entries records results w' es,
+    existsb (foreign v) entries = true /\
+    outer_logging_first (log_setup v) pl v 1 false false entries records results 0 (initial_world 0)
+      = (w', Err E_Input, 1, es) /\
+    es = log_entry v :: entries /\ es <> entries /\
+    outer_run_antismash (log_setup v) pl v 1 false false entries records results 0 (initial_world 0)
+      = (log_error (initial_world 0), Err E_Input, 1, entries).
+Proof.
+  exists (mkPP 0 true 0 0 [mkRP false 0 true 0] 0 0 false), (mkEnv true (mkP 0 5) (mkP 9 99)),
+         [mkE 0 0 true false false false], [mkR 0 0 0 0 false], [[mkM 2 0 11 0 0 0 0]].
+  eexists. eexists. split; [reflexivity|]. split; [vm_compute; reflexivity|].
+  split; [reflexivity|]. split; [discriminate | vm_compute; reflexivity].
 Qed.
